@@ -123,17 +123,25 @@ theorem wf_reachable_partial (env : Env) (cs : List (Cmd User.Op))
       (by intro e he; cases he), (by intro e he; cases he)⟩ hd
   exact wfcur _ _ hc'
 
-/-! F27a: `delete_sheet` leaves the deleted sheet's sheet-scoped defined names behind. -/
+/-! F27a (repaired, repo fix "delete_sheet deletes the defined names local to the sheet"): the names
+    local to the deleted sheet go with it, so the step preserves `WFBook` — for every well-formed
+    book, failing calls included.  (`C27_full` remains open only for `new_sheet` and `rename_sheet`,
+    whose steps are compared with the code but not proved; no counterexample is known.) -/
 
 def namedBook : Book :=
   { Book.init with
     sheets := [emptySheet "Sheet1" 1, emptySheet "Sheet2" 2],
     names := [⟨"loc", "Sheet2!$A$1", some 2⟩] }
 
-theorem C27_full_false : ¬ C27_full envEx := by
-  intro h
-  have := h namedBook (.deleteSheet 1) (by decide)
-  exact absurd this (by decide)
+theorem wf_step_deleteSheet (env : Env) (b : Book) (i : Nat) (h : WFBook env b = true) :
+    WFBook env (doOp env b (.deleteSheet i)).w = true :=
+  wf_deleteSheet env b i h
+
+/-- the former counterexample (`C27_full_false` on the pinned tree): the local name is gone with its
+    sheet, and the recorded diffs delete it before the sheet (undo re-creates it after the sheet) -/
+example : WFBook envEx (doOp envEx namedBook (.deleteSheet 1)).w = true ∧
+    (doOp envEx namedBook (.deleteSheet 1)).w.names = [] ∧
+    ((doOp envEx namedBook (.deleteSheet 1)).pushed.map fun ds => ds.length) = some 2 := by decide
 
 /-! non-vacuity -/
 example : WFBook envEx namedBook = true := by decide
